@@ -100,3 +100,7 @@ impl VToBytes64 for u64 {
 
 pub assume_specification<T: PartialEq> [ <[T]>::contains ] (s: &[T], x: &T) -> (r: bool)
     ensures r == s@.contains(*x);
+
+// Rust reference: a slice never spans more than isize::MAX bytes.
+#[verifier::external_body]
+pub proof fn axiom_slice_max(s: &[u8]) ensures s@.len() <= 0x7fff_ffff_ffff_ffff { }
